@@ -12,3 +12,4 @@ echo "== mutants"; cat $OUT/*.mut | grep -c "^caught"; grep -h "MISSED\|STALE" $
 echo "== benign"; cat $OUT/*.ben | grep -c "^quiet"; grep -h "FALSE-ALARM\|STALE" $OUT/*.ben | cut -c1-300
 echo "== seeded"; cat $OUT/*.seed | grep -c "^caught"; grep -h "MISSED\|skipped " $OUT/*.seed | cut -c1-300
 echo "== rule sets"; python3 tools/rulesets.py | tail -3
+echo "== independently written refactorings (benignseeds: regressions fail, open false alarms are listed in DESIGN 9.5a)"; python3 tools/benignseeds.py -j 3 | tail -1
